@@ -6,4 +6,7 @@ export CARGO_NET_OFFLINE=true
 mkdir -p .cache evidence replays
 ( cd coq && coq_makefile -f _CoqProject -o Makefile > /dev/null && timeout 3000 make -j16 )
 CARGO_TARGET_DIR=$PWD/.cache/target cargo build --offline --features verif --manifest-path /repo/Cargo.toml 2>&1 | tail -2
+
+# warm build of the runtime probe harness (rebuilt incrementally by the checks)
+CARGO_TARGET_DIR=$PWD/.cache/probe_target cargo build --offline --manifest-path harness/probe/Cargo.toml 2>&1 | tail -1
 echo "setup done"
